@@ -33,7 +33,12 @@ type c10RunSpec struct {
 }
 
 func c10Object12() string {
+	// 40 keys (the name is historic): beyond any small-object fast path; several longer than a machine word and equal in their first 8 bytes
 	keys := []string{"k07", "k01", "k12", "k03", "k09", "k05", "k11", "k02", "k08", "k04", "k10", "k06"}
+	for i := 13; i <= 34; i++ {
+		keys = append(keys, fmt.Sprintf("k%02d", (i*7)%22+13))
+	}
+	keys = append(keys, "created_by", "created_at", "customer_zip", "customer_name", "created_at_utc", "customer_zipcode")
 	parts := make([]string, len(keys))
 	for i, k := range keys {
 		parts[i] = fmt.Sprintf("%q:%d", k, i)
@@ -69,6 +74,9 @@ var c10Runs = []c10RunSpec{
 	{Name: "a record reachable along three paths, serialised", Prog: `BEGIN { rec = {n: 1}; o = {a: {p: rec, q: rec}, b: rec, c: [rec, rec]}; print json(o); print json([rec, rec, rec]) }`},
 	// the same with nothing else in the way: whether it works may not depend on the order in which the members are met
 	{Name: "a record reachable twice inside a member and once beside it, serialised", Prog: `BEGIN { rec = {n: 1}; o.a = {p: rec, q: rec}; o.f1 = 1; o.f2 = 2; o.b = rec; o.f3 = 3; print json(o) } { all.push($); by[$.k] = {first: $, last: $}; last = $ } END { print json({all: all, by: by, last: last}) }`, Input: `[{"k":"x"},{"k":"y"}]`, HasIn: true},
+	// two runs that address object members by the two zeros, in opposite orders: whichever ran first may not decide the key of the other
+	{Name: "object members counted under -0 and then 0", Prog: `BEGIN { c = {} } { c[$.round()]++; d[$ * 0] = $index } END { print c, d; print c[0], c[-0] }`, Input: `[-0.2, -0.4, 0.3]`, HasIn: true},
+	{Name: "object members counted under 0 and then -0", Prog: `BEGIN { c = {} } { c[$.round()]++; d[$ * 0] = $index } END { print c, d; print c[0], c[-0] }`, Input: `[0.3, -0.2, 0.4]`, HasIn: true},
 	{Name: "recursion a thousand deep", Prog: `function r(n) { if (n <= 0) return 0; return 1 + r(n - 1) } function m(n) { return match (n) { 0 => 0, k => 1 + m(k - 1) } } BEGIN { print r(1000), m(600) }`},
 	{Name: "a fuzzing-mode run that ends in exit", Prog: `function r(n) { if (n <= 0) return 0; return 1 + r(n - 1) } BEGIN { print r(100); exit }`, Fuzzing: true},
 	// two programs of identical shape whose literals differ: nothing remembered by position may carry from one run to another
@@ -331,18 +339,18 @@ func init() {
 	n := len(c10Runs)
 	register(&fw.Prop{
 		ID: "C10",
-		Rule: "alphabet of 31 runs that touch every piece of process-global state (method lookups on all four prototypes, nested and failing method calls, a method cell called without a fresh lookup, depth and loop limits, syntax and JSON errors, selectors, a 12-key object, JSON output, literals and argument lists whose parts have side effects, two programs of one shape with different literals); " +
+		Rule: "alphabet of 33 runs that touch every piece of process-global state (method lookups on all four prototypes, nested and failing method calls, a method cell called without a fresh lookup, depth and loop limits, syntax and JSON errors, selectors, a 40-key object, object members addressed by both zeros in both orders, JSON output, literals and argument lists whose parts have side effects, two programs of one shape with different literals); " +
 			"(i) explicit-state breadth-first search over run histories with the fingerprint of the package-level state (hook VerifGlobals) as state: from every reachable state every run is executed and compared with its fresh-process result, until the reachable set closes; " +
 			"(ii) every history of <= L runs in its own fresh process without any reset, every run compared with (iii); (iii) each run as the first run of a fresh process, 25 times, plus 24 in-process repetitions and 12 invocations of the real binary: all byte-identical; " +
 			"the package-level variables of /repo/src are listed with go/parser on every run: one that is neither fingerprinted nor reviewed as never-assigned withdraws the closure argument (recorded, never an alarm); states = global-state fingerprints reached; non-trivial = same",
 		Plan: func(t fw.Tier) int { return 1 + n + n*n },
 		Bound: func(t fw.Tier) string {
 			if t == fw.Thorough {
-				return "global-state graph closed; all histories of <= 4 runs over 31 runs, each in a fresh process"
+				return "global-state graph closed; all histories of <= 4 runs over 33 runs, each in a fresh process"
 			}
-			return "global-state graph closed; all histories of <= 3 runs over 31 runs, each in a fresh process"
+			return "global-state graph closed; all histories of <= 3 runs over 33 runs, each in a fresh process"
 		},
-		Assumptions: []string{"no model: the oracle is equality with the fresh-process execution", "Go's map iteration randomisation is not controlled: 12-key objects and 24+ repetitions make an order-dependent output differ with overwhelming probability", "the closure argument of (i) assumes VerifGlobals sees all mutable package-level state; the go/parser scan withdraws it otherwise"},
+		Assumptions: []string{"no model: the oracle is equality with the fresh-process execution", "Go's map iteration randomisation is not controlled: 40-key objects and 24+ repetitions make an order-dependent output differ with overwhelming probability", "the closure argument of (i) assumes VerifGlobals sees all mutable package-level state; the go/parser scan withdraws it otherwise"},
 		Run: func(c *fw.Ctx, u int) {
 			switch {
 			case u == 0:
